@@ -70,12 +70,17 @@ varint_from_source(Source *source, const size_t maxoctets, union varint64 *n)
 
     for (size_t i = 0u; i < maxoctets; ++i) {
         unsigned char data;
-        const int rc = source_get_octet(source, &data);
+        /* The exact call: It repeats the request while the driver says that
+         * nothing moved (zero, -EINTR, -EAGAIN), so the octets of one value
+         * are taken from the source together or, on a hard error, not used
+         * at all. The single-octet call hands such an answer through. */
+        const ssize_t rc = source_get_chunk(source, &data, 1u);
+        if (rc < 0) {
+            return (int)rc;
+        }
         const unsigned char bits = data & VARINT_DATA_MASK;
         n->u |= (uint64_t)bits << (i * VARINT_DATA_BITS);
-        if (rc < 0) {
-            return rc;
-        } else if (varint_done(data)) {
+        if (varint_done(data)) {
             return (int)(i + 1);
         }
     }
